@@ -149,14 +149,6 @@ def mintProbeLine (s : State) (t : Time) : String :=
   let infl := if rem.length < before then toString s.minterInfl else "-"
   s!"M max={s.mintMax} min={s.mintMin} rate={s.mintRate} infl={infl} remaining={remS}"
 
-/-- C12's monitor: the genesis exported from this state passes validation.  It is the Bool form of the
-`export validates` conjunct of `roundtrip_reachable` (Props/C12Reach) for the vpn and custommint sections
-and the swap parameters; the swap *records* are left out because of the listed finding F4 (a recorded
-swap of less than 100 fails `Swap.Validate`), which the round-trip check reports by itself. -/
-def exportValidB (s : State) : Bool :=
-  !exportPanics s && (validateVpn (exportVpn s)).isNone && (validateMint (exportMint s)).isNone
-    && (s.params.swap.validate).isNone && !hasDup ((exportSwap s).swaps.map (·.hash))
-
 def exportWhy (s : State) : String :=
   if exportPanics s then "export_panics" else
   match firstOf [validateVpn (exportVpn s), validateMint (exportMint s), s.params.swap.validate] with
